@@ -21,6 +21,17 @@ def check_c06(tier):
     wd = workdir("C06")
     p = os.path.join(wd, "run.ndjson")
     vh_to_file(["bsig-run", tier], p, timeout=3000)
+    # the same verifier in processes whose local time zone has daylight saving, on signatures dated next to a transition:
+    # the lifetime cap is 604800 seconds, not seven calendar days
+    for tz in ("America/New_York", "Europe/Berlin"):
+        pz = os.path.join(wd, "run-%s.ndjson" % tz.split("/")[1])
+        vh_to_file(["bsig-run", "dst"], pz, timeout=3000, env={"TZ": tz})
+        with open(p, "a") as f:
+            for line in open(pz):
+                d = json.loads(line)
+                d["case"] = tz.split("/")[1] + "-" + d["case"]
+                d["note"] = d["note"] + " [TZ=%s]" % tz
+                f.write(json.dumps(d) + "\n")
     cases = {}
     for line in open(p):
         d = json.loads(line)
@@ -68,6 +79,9 @@ def check_c06(tier):
     rep.add("negative_control", corrupted_records_rejected=3)
     rep.assumptions = ["host coverage of a certificate is decided by crypto/x509 VerifyHostname on harness-made certificates", "dates below 2^63",
                        "a second signer covering an exchange that already has a Digest header is refused by the code; such sequences end in a refusal"]
+    # calls on independent objects running in parallel do not interfere (Trace_Purity, race detector)
+    from purity_checks import parallel_cold
+    parallel_cold(rep, "C06", "signatures")
     return rep.finish()
 
 
